@@ -593,8 +593,8 @@ func VH_C12_routing() {
 		_, err := sp.ValidateEncodedResponse(enc)
 		vDebugErr("validate", err)
 		vReach("validated", err == nil)
-		vAssertModel("C12.every-inflation-bounded-by-the-configured-limit", vMaterialised()-1 <= eff)
 		vAssert("C12.every-inflation-within-8x-the-configured-limit", vOr(eff > 1<<23, vMaterialised() <= 8*(eff+1)+(1<<20)))
+		vAssertModel("C12.every-inflation-bounded-by-the-configured-limit", vMaterialised()-1 <= eff)
 		if err == nil && mode == 1 {
 			vAssert("C12.accepted-compressed-message-fits-the-configured-limit", vWireInflatedLen("wire") <= eff)
 		}
